@@ -107,13 +107,25 @@ theorem pushDefaultK_no_panic : ∀ (b : B) (k : Nat), (pushDefaultK b k).isPani
     rw [ctx_isPanic]
     cases fs with
     | nil => simp only []; split <;> rfl
-    | cons c m rest => exact bind_no_panic _ _ (pushDefaultK_no_panic c k) (fun _ => rfl)
+    | cons c m rest =>
+      simp only []
+      split
+      · rfl
+      · exact bind_no_panic _ _ (pushDefaultKAt_no_panic (.cons c m rest) _ k) (fun _ => rfl)
 theorem pushDefaultKAll_no_panic : ∀ (fs : BL) (k : Nat), (pushDefaultKAll fs k).isPanic = false
   | .nil, _ => rfl
   | .cons b _ rest, k => by
     unfold pushDefaultKAll
     refine bind_no_panic _ _ (pushDefaultK_no_panic b k) (fun _ => ?_)
     exact bind_no_panic _ _ (pushDefaultKAll_no_panic rest k) (fun _ => rfl)
+theorem pushDefaultKAt_no_panic : ∀ (fs : BL) (j k : Nat), (pushDefaultKAt fs j k).isPanic = false
+  | .nil, _, _ => rfl
+  | .cons b _ rest, 0, k => by
+    unfold pushDefaultKAt
+    exact bind_no_panic _ _ (pushDefaultK_no_panic b k) (fun _ => rfl)
+  | .cons b _ rest, j + 1, k => by
+    unfold pushDefaultKAt
+    exact bind_no_panic _ _ (pushDefaultKAt_no_panic rest j k) (fun _ => rfl)
 end
 
 theorem pushNone_no_panic : ∀ (b : B), (pushNone b).isPanic = false
@@ -150,8 +162,10 @@ theorem pushNone_no_panic : ∀ (b : B), (pushNone b).isPanic = false
     exact bind_no_panic _ _ (pushDefaultKAll_no_panic fs 1) (fun _ => rfl)
   | .dictionary _ idx _ _ => by
     unfold pushNone; rw [ctx_isPanic]
-    refine bind_no_panic _ _ ?_ (fun _ => rfl)
-    rw [ctx_isPanic]; exact pushNone_no_panic idx
+    split
+    · rfl
+    · refine bind_no_panic _ _ ?_ (fun _ => rfl)
+      rw [ctx_isPanic]; exact pushNone_no_panic idx
   | .union _ _ _ _ _ => by unfold pushNone; rw [ctx_isPanic]; rfl
 
 end SaModel.Lemmas.C16
